@@ -301,6 +301,23 @@ def run_case(case):
                         cnt["equal_seed_pairs"] += 1
                         if f1["smiles"] != f2["smiles"]:
                             viol.append({"cls": "c18.equal-seeds-differ", "msg": f"seed {s} gave {f1['smiles']} and then {f2['smiles']}", "text": text})
+                if gi == 2 and f1 is not None and "smiles" in f1:
+                    # fault injection: a generation that breaks off mid-way (the sporadic failure of a Schulz-Zimm draw, injected at the k-th variate)
+                    # must leave nothing behind -- the next generation with seed s gives what seed s gave before
+                    for fail_at in (2, 3):
+                        fr = R.FaultRNG(s + 17, fail_at)
+                        try:
+                            generate(sag, fr)
+                        except BaseException:
+                            pass
+                        if fr.fired:
+                            cnt["injected_faults"] += 1
+                            f3 = one(sag, cm, ref, R.SpyRNG(s), f"seed{s}-after-injected-fault", text)
+                            if f3 is not None and "smiles" in f3:
+                                cnt["after_fault_pairs"] += 1
+                                if f3["smiles"] != f1["smiles"]:
+                                    viol.append({"cls": "c18.equal-seeds-differ.after-a-broken-off-generation", "msg": f"seed {s} gave {f1['smiles']}; after another generation broke off (injected draw failure at variate {fail_at}) the same seed gives {f3['smiles']}", "text": text})
+                                    break
                 if gi == 1 and f1 is not None:
                     # one AtomGraph object generating several times (to_mol() after each): every result is audited like a first one
                     kept = []
